@@ -4,7 +4,7 @@ from framework import PropertyCheck
 
 class Check(PropertyCheck):
     pid = "C18"
-    gen_files = ["GenStatus"]
+    gen_files = ["GenStatusFn", "GenStatus"]
     model_imports = ["gen.GenStatus", "model.Status"]
     run_expr = "(fun '(tag, code) => [Z.of_N (normalise (fam_of_tag tag) code)])"
     rule = ("all 256 codes of EzspStatus and of EmberStatus (exhaustive), every defined sl_Status member, "
